@@ -5,6 +5,7 @@ Cfgs == [base |-> BaseCfg,
          all  |-> [BaseCfg EXCEPT !.num = TRUE, !.bool = TRUE, !.ips = TRUE, !.ns = TRUE]]
 TWTables == {}
 TWShapeKinds == {}
+EWDamaged == FALSE
 FreeDepth == 1
 FreeKeys == {}
 FreeSlots == {}
